@@ -359,6 +359,25 @@ def declared_purity(rep, lua, mods, rule="PURITY-DECL"):
                    "%s is declared `pu` but its Lua definition %s: a pure function can change a (constant) list through it - "
                    "`bump :: pu xs: [int] -> int do list.set(xs, 0, get(xs, 0) + 1) .. end` gives 1, then 2" % (name, "; ".join(sorted(set(bad)))),
                    "std/%s.sy" % mname)
+    # .. and a `pu` external runs the callbacks it is given: a callback parameter declared `fn` (any purity) lets a pure caller
+    # run an impure function through it
+    m_ = 0
+    for mname in sorted(mods):
+        for name, types in sorted(mods[mname]["externals"].items()):
+            for t in types:
+                if not (t[0] == "fn" and t[1]):
+                    continue
+                cbs = [p_ for p_ in t[2] if p_[0] == "fn"]
+                if not cbs:
+                    continue
+                m_ += 1
+                open_ = [p_ for p_ in cbs if not p_[1]]
+                rep.ob(rule, "%s.%s|callbacks-of-a-pu-external-are-pu" % (mname, name), not open_,
+                       "%s is declared `pu` and so is every function it is handed" % name if not open_ else
+                       "%s is declared `pu` but takes a callback declared `fn`, which in a parameter position means any purity: a pure "
+                       "function can run an impure one through it (`count :: pu s -> .. do %s(s, bump) .. end` where bump changes a "
+                       "global)" % (name, name), "std/%s.sy" % mname)
+    rep.floor(rule, "pu externals that take callbacks", m_, 5)
     rep.floor(rule, "externals declared pu with a Lua definition", n, 15)
 
 
